@@ -84,32 +84,37 @@ class UnitResult:
         s.canary = None
 
 
-def run_unit(unit) -> UnitResult:
-    res = UnitResult(unit)
-    t0 = time.time()
+def _explore(unit, par):
+    """symbolic exploration of the unit (of this process's subtree when work sharing is on); returns a picklable dict"""
+    out = dict(obls=[], paths=0, outcomes={}, error=None, crash=None, canary=None, func_hash=None)
+    ex = None
+    _t0 = time.time()
     try:
         fi = source.get_func(unit.func)
-        res.func_hash = fi.source_hash()
+        out["func_hash"] = fi.source_hash()
         ex = Executor(unit)
+        if par is not None:
+            ex.par_k, ex.sem = 1, par[0]
         p = Path()
+        p.par_on = not unit.options.get("par_after")
         ex.func_stack = [fi]
         args = unit.setup(ex, p) or {}
         H0 = p.snap()
         pre = p.clone()
         body = unit.body_of(fi) if unit.body_of else fi.node.body
         outs = ex.block(body, p)
-        res.paths = len(outs)
-        reached_normal = False
+        reached = False
         for o in outs:
-            res.outcomes[o.kind] = res.outcomes.get(o.kind, 0) + 1
+            if not ex.owns(o.path):
+                continue
+            out["paths"] += 1
+            out["outcomes"][o.kind] = out["outcomes"].get(o.kind, 0) + 1
             ctx = PostCtx(ex, o, H0, args, pre)
-            if ctx.kind == "return":
-                reached_normal = True
             if o.kind == "raise":
                 allowed = unit.allowed_raise(ctx) if unit.allowed_raise else BoolVal(False)
                 site = o.value.get("site") or "?"
                 ex.oblig(f"{unit.name}.raises_only_allowed", "clause", o.path, allowed)
-                if ex.obls[-1].verdict != "PROVED":
+                if ex.obls and ex.obls[-1].verdict != "PROVED":
                     ex.obls[-1].notes.append(f"escaping exception raised at {site}")
             elif o.kind in ("break", "continue"):
                 raise Unsupported(f"{o.kind} outside loop")
@@ -118,22 +123,90 @@ def run_unit(unit) -> UnitResult:
                     g = c.fn(ctx)
                     if g is not None:
                         ex.oblig(c.name, "clause", o.path, g)
-        # vacuity canary: some outcome must be reachable under the precondition (an `assert False` there is refuted)
-        res.canary = any(o.path.feasible() for o in outs[:3]) if outs else False
-        res.obls = ex.obls
-        if not unit.allowed_raise and not any(ob.name.endswith("raises_only_allowed") for ob in ex.obls):
-            # no path raises: record the discharged exceptional postcondition (every raising site was pruned as infeasible)
-            res.obls.append(Obligation(f"{unit.name}.raises_only_allowed", "clause", "PROVED", 0.0,
-                                       "path-enumeration(no raising outcome feasible)", func=fi.name))
+            if not reached and o.path.feasible():
+                reached = True
+        out["canary"] = reached
     except Unsupported as e:
-        res.error = f"unsupported: {e}"
-        res.obls = getattr(locals().get("ex"), "obls", [])
+        out["error"] = f"unsupported: {e}"
     except KeyError as e:
         if "contract anchor lost" in str(e):
-            res.error = str(e)
+            out["error"] = str(e)
         else:
-            res.crash = traceback.format_exc()
+            out["crash"] = traceback.format_exc()
     except Exception:
-        res.crash = traceback.format_exc()
+        out["crash"] = traceback.format_exc()
+    if ex is not None:
+        out["obls"] = [(o.name, o.cls, o.verdict, o.ms, o.backend, o.model, o.notes, o.func, o.smt2)
+                       for o in ex.obls[ex.obls_base:]]
+    out["stats"] = dict(STATS)
+    import os
+    out["worker_wall"] = (os.getpid(), round(time.time() - _t0, 1), len(out["obls"]))
+    if ex is not None and par is not None:
+        if ex.is_child:
+            par[0].release()                 # give the slot back before waiting for own descendants
+        for pid in ex.kids:
+            try:
+                os.waitpid(pid, 0)
+            except ChildProcessError:
+                pass
+        if ex.is_child:
+            import pickle
+            with open(os.path.join(par[1], f"{os.getpid()}.pkl"), "wb") as f:
+                pickle.dump(out, f)
+            os._exit(0)
+    return out
+
+
+def run_unit(unit) -> UnitResult:
+    """Runs the unit.  With options['par_k'] = N>0 the path tree is explored by up to N processes: at a two-way fork a
+       free slot is used to fork() a process that takes over the subtree of one branch (dynamic work sharing); every
+       process writes the obligations of its own subtree to a spool file and the root merges them."""
+    import os
+    import pickle
+    import tempfile
+    import shutil
+    import multiprocessing as mp
+    res = UnitResult(unit)
+    t0 = time.time()
+    N = int(unit.options.get("par_k", 0) or 0)
+    if os.environ.get("PYVC_SERIAL"):
+        N = 0
+    parts = []
+    if N == 0:
+        parts.append(_explore(unit, None))
+    else:
+        spool = tempfile.mkdtemp(prefix="pyvc_spool_", dir=os.environ.get("TMPDIR", "/tmp"))
+        sem = mp.get_context("fork").Semaphore(max(1, N - 1))
+        root_pid = os.getpid()
+        try:
+            out = _explore(unit, (sem, spool, root_pid))      # forked explorers never return from here
+            parts.append(out)
+            for fn in sorted(os.listdir(spool)):
+                with open(os.path.join(spool, fn), "rb") as f:
+                    parts.append(pickle.load(f))
+        finally:
+            if os.getpid() == root_pid:
+                shutil.rmtree(spool, ignore_errors=True)
+    for part in parts:
+        res.func_hash = res.func_hash or part["func_hash"]
+        res.paths += part["paths"]
+        for k, v in part["outcomes"].items():
+            res.outcomes[k] = res.outcomes.get(k, 0) + v
+        res.error = res.error or part["error"]
+        res.crash = res.crash or part["crash"]
+        res.canary = bool(res.canary) or bool(part["canary"])
+        res.obls += [Obligation(*t) for t in part["obls"]]
+        for k, v in part.get("stats", {}).items():
+            if part is parts[0]:
+                STATS[k] = v
+            else:
+                STATS[k] = STATS.get(k, 0) + v
+    if os.environ.get("PYVC_WORKERS"):
+        print("explorers", len(parts), sorted((p_.get("worker_wall") for p_ in parts), key=lambda x: -x[1])[:8])
+    if not res.error and not res.crash and not unit.allowed_raise and \
+            not any(ob.name.endswith("raises_only_allowed") for ob in res.obls):
+        # no path raises: record the discharged exceptional postcondition (every raising site was pruned as infeasible)
+        res.obls.append(Obligation(f"{unit.name}.raises_only_allowed", "clause", "PROVED", 0.0,
+                                   "path-enumeration(no raising outcome feasible)", func=unit.func))
     res.wall = time.time() - t0
     return res
